@@ -35,17 +35,18 @@ TOUCH_DROP = [["touch_given", 2, 3], ["clone_drop"], ["drop_arena"]]
 
 class Q:
     def __init__(self, name, props, tier, kind, freelist, setup, p1, p2, steps, switches, first, n1=(1, 24), n2=None, timeout=1800, role=None,
-                 selftest=False, retries=1):
+                 selftest=False, retries=1, p3=None, plan=None):
         self.name, self.props, self.tier, self.kind = name, props, tier, kind
         self.freelist, self.setup, self.p1, self.p2 = freelist, setup, p1, p2
         self.steps, self.switches, self.first = steps, switches, first
         self.n1, self.n2, self.timeout, self.role = n1, n2, timeout, role or name
         self.selftest = selftest
         self.retries = retries
+        self.p3, self.plan = p3, plan
 
     def spec(self, mir, src):
         sp, sargs, given = SETUPS[self.setup]
-        progs = [sp, self.p1] + ([self.p2] if self.p2 is not None else [])
+        progs = [sp, self.p1] + ([self.p2] if self.p2 is not None else []) + ([self.p3] if self.p3 is not None else [])
         args = {"0": dict(sargs), "1": {}}
         if any(a[0] in ("alloc_bytes", "alloc_aligned") for a in self.p1):
             args["1"]["0"] = list(self.n1)
@@ -59,14 +60,18 @@ class Q:
                     args["2"]["2"] = list(self.n2 or self.n1)
             elif any(a[0] == "alloc_bytes" for a in self.p2):
                 args["2"]["0"] = list(self.n2 or self.n1)
-        return {"name": self.name, "mir": mir, "src": src, "cap": 96, "freelist": self.freelist, "min_seg": 8, "retries": self.retries, "init": "fresh",
+        if self.p3 is not None:
+            args["3"] = {"0": list(self.n2 or self.n1)} if any(a[0] == "alloc_bytes" for a in self.p3) else {}
+        extra = {"plan": self.plan} if self.plan else {}
+        return {**extra, "name": self.name, "mir": mir, "src": src, "cap": 96, "freelist": self.freelist, "min_seg": 8, "retries": self.retries, "init": "fresh",
                 "progs": progs, "args": args, "steps": [SETUP_STEPS[self.setup]] + self.steps, "kind": self.kind, "switches": self.switches,
                 "first": self.first, "timeout_s": self.timeout, "selftest": self.selftest}
 
     def bounds(self):
         return ("CAP=96 unified layout, min_segment_size=8, maximum_retries=%d, list=%s, setup=%s, programs=%s|%s, sizes in %s, <=%d context switches "
-                "(first mover: thread %d), per-thread step bounds %s, <=1 spurious weak-CAS failure per thread" %
-                (self.retries, self.freelist, self.setup, json.dumps(self.p1), json.dumps(self.p2), list(self.n1), self.switches, self.first, self.steps))
+                "(first mover: thread %d), per-thread step bounds %s, <=1 spurious weak-CAS failure per thread%s" %
+                (self.retries, self.freelist, self.setup, json.dumps(self.p1), json.dumps(self.p2), list(self.n1), self.switches, self.first, self.steps,
+                 (", third thread %s, explicit shape %s" % (json.dumps(self.p3), json.dumps(self.plan))) if self.plan else ""))
 
 
 def families():
@@ -88,6 +93,11 @@ def families():
     # typed / aligned allocations served from the list (pad::<T>() + re-alignment inside the segment) against a concurrent release
     qs.append(Q("safe_typed_u64_vs_dealloc_opt_sw2", ["C02"], "thorough", "safe", "Optimistic", "S_T", TYPED_U64_FREE, DEALLOC, [30, 14], 2, 2, timeout=2400))
     qs.append(Q("safe_aligned_u32_vs_dealloc_pess_sw2", ["C02"], "thorough", "safe", "Pessimistic", "S_T", ALIGNED_U32_FREE, DEALLOC, [30, 16], 2, 2, n1=(0, 8), timeout=2400))
+    # three threads: two allocators and one releaser, two pre-emptions (T1^a T2^b T3* T2* T1*)
+    qs.append(Q("safe_three_threads_opt", ["C02"], "thorough", "safe", "Optimistic", "S_HN", ALLOC, DEALLOC, [22, 14, 22], 2, 1, n1=(1, 8), p3=ALLOC,
+                plan=[[1, "f"], [2, "f"], [3, "s"], [2, "s"], [1, "s"]], timeout=3000))
+    qs.append(Q("live_three_threads_opt", ["C07"], "thorough", "live", "Optimistic", "S_HN", ALLOC, DEALLOC, [22, 14, 22], 2, 1, n1=(1, 8), p3=ALLOC,
+                plan=[[1, "f"], [2, "f"], [3, "s"], [2, "s"], [1, "s"]], timeout=3000))
     # a thread that still holds a reference to a node another thread has popped, filled and will check (stale reference)
     qs.append(Q("safe_allocfree_vs_alloc_opt_sw3_stale", ["C02"], "thorough", "safe", "Optimistic", "S_HN", ALLOC_FREE, ALLOC, [30, 22], 3, 2, n1=(1, 8), timeout=3000))
     qs.append(Q("safe_allocfree_vs_alloc_pess_sw3_stale", ["C02"], "thorough", "safe", "Pessimistic", "S_HN", ALLOC_FREE, ALLOC, [30, 24], 3, 2, n1=(1, 8), timeout=2400))
